@@ -184,6 +184,11 @@ pub fn legalise_pat(cfg: &Cfg, raw: &RawPat, id: u16, ordered: bool, in_stub: bo
         matcher = MatcherKind::Macro(k);
         mask = MACRO_MASKS[k as usize];
     }
+    if let MatcherKind::MacroEq(_) = matcher {
+        let v = raw.mask % 8;
+        matcher = MatcherKind::MacroEq(v);
+        mask = 1 << v;
+    }
     PatternSpec { id, mask, matcher, chain }
 }
 
